@@ -142,7 +142,8 @@ def oracle(prop, script, c_lines):
         if d is None:
             return "op %d '%s': unparsable implementation output '%s'" % (i, op, line[:200])
         if "BADARG" in d["res"]:
-            return "op %d '%s': a callback received a pointer outside the array / scratch element / probe" % (i, op)
+            return ("op %d '%s': a callback received a pointer outside the array / scratch element / probe, or bytes "
+                    "that are not an element of the input (an element was corrupted by an earlier exchange)" % (i, op))
         if d["h"].startswith("bad") or d["elems"] is None or not ELEM.match(d["scratch"]):
             return "op %d '%s': an element is no longer byte-identical to an input element (%s)" % (i, op, line[-120:])
         elems = d["elems"]
